@@ -34,11 +34,11 @@ CLAIMS = {
   'Weak fit for the technique (the quantifier is a value grid); the simulator is needed because the result exists only as behaviour of emitted code. SVM/reference assumptions as for C01; floor div/mod assumed.',
   'deterministic simulation of emitted code over an enumerated value grid plus seeded sampling; differential oracle'),
  'C10': ('fault_enumeration', '3 C10',
-  'Text half: seeded fuzzing (random text/bytes, token soups, mutated/truncated/ill-typed variants of generated programs, nesting <= 40) x option vectors through the API (only CompilerError may escape, diagnostics render, spans inside the source) - this half is input fuzzing run through the same harness. I/O half: hidc.__main__.main() in-process on a fake file system; for every invocation the recorded file-system calls are enumerated as fault positions x {EIO, ENOSPC, EACCES, EMFILE} plus missing input, directory as input/output and undecodable bytes; exit status, stderr, traceback absence and output-file presence/content are checked; a sample is cross-checked against a real python -m hidc subprocess. As built also: a seed-independent single-damage matrix (2547 programs: each alien expression / bad statement alone in each small host position) and long-token / wide inputs (literals of up to 9000 digits, -m14400, -m80000).',
-  'Fake raw streams wrapped in the real io classes; UTF-8 locale assumed; successful output must be accepted by the strict SVM assembler (stub of the Sphinx assembler).',
+  'Text half: seeded fuzzing (random text/bytes, token soups, mutated/truncated/ill-typed variants of generated programs, nesting <= 40) x option vectors through the API (only CompilerError may escape, diagnostics render, spans inside the source) - this half is input fuzzing run through the same harness. I/O half: hidc.__main__.main() in-process on a fake file system; for every invocation the recorded file-system calls are enumerated as fault positions x {EIO, ENOSPC, EACCES, EMFILE} plus missing input, directory as input/output and undecodable bytes; exit status, stderr, traceback absence and output-file presence/content are checked; a sample is cross-checked against a real python -m hidc subprocess. As built also: a seed-independent single-damage matrix (2547 programs: each alien expression / bad statement alone in each small host position) and long-token / wide inputs (literals of up to 9000 digits, -m14400, -m80000); standard-output faults; legal slow-device behaviour (1- and 3-byte reads, 7-byte writes, EINTR) and simulated non-UTF-8 locale encodings, both of which must change nothing.',
+  'Fake raw streams wrapped in the real io classes; the fake open() decodes with the simulated locale encoding when no encoding is named; successful output must be accepted by the strict SVM assembler (stub of the Sphinx assembler).',
   'deterministic simulation of the CLI on a fake file system with enumerated I/O fault injection; seeded input fuzzing for the totality half'),
  'C13': ('exploration', '3 C13',
-  'Every byte value singly / as character immediate / at first-middle-last position, special-byte pairs (all 65536 pairs in thorough), constant arrays of all lengths 0..40 in four storage classes, seeded random strings and literal spellings; the strict SVM assembler must accept the output and the running program must print, index and measure exactly the denoted bytes. As built every source is also sent through the command-line tool reading it from a (fake) file and must give assembly byte-identical to the API result; literals are also spelled with raw control characters.',
+  'Every byte value singly / as character immediate / at first-middle-last position, special-byte pairs (all 65536 pairs in thorough), constant arrays of all lengths 0..40 in four storage classes, seeded random strings and literal spellings; the strict SVM assembler must accept the output and the running program must print, index and measure exactly the denoted bytes. As built every source is also sent through the command-line tool reading it from a (fake) file and must give assembly byte-identical to the API result; literals are also spelled with raw control characters; sources with non-ASCII text are read under the simulated locale encodings utf-8, ascii, latin-1 and cp1252 (process-environment fault) and must build identically.',
   'Weak fit (value space); the SVM assembler\'s strictness stands in for the real Sphinx assembler.',
   'deterministic simulation of emitted code over an enumerated constant space plus seeded sampling; strict assembler as oracle for well-formedness'),
  'C14': ('exploration', '3 C14',
@@ -50,8 +50,8 @@ CLAIMS = {
   'Cases whose checked run ends in an error flag are counted, not judged (unchecked behaviour undefined there).',
   'deterministic simulation: paired executions under a build-option seam; history equality'),
  'C18': ('exploration', '3 C18',
-  'Hash-seed / fresh-process seam: batches of seeded programs compiled in 4 fresh interpreters under seeded PYTHONHASHSEED values and twice in-process must give byte-identical assembly; stack seam: histories at N, N+1, N+2, N+9, 4000 and 100000 words identical; word-size seam: runs at {2,3,4,8} bytes agree whenever the reference histories agree (program constants fit 16 bits); --lint either rejects or leaves the bytes unchanged.',
-  'Assumes PYTHONHASHSEED is the only per-process nondeterminism reachable from hidc.',
+  'Hash-seed / fresh-process seam: batches of seeded programs compiled in 4 fresh interpreters under seeded PYTHONHASHSEED values and twice in-process must give byte-identical assembly; stack seam: histories at N, N+1, N+2, N+9, 4000 and 100000 words identical; word-size seam: runs at {2,3,4,8} bytes agree whenever the reference histories agree (program constants fit 16 bits); --lint either rejects or leaves the bytes unchanged; process-environment seam: one program per batch with non-ASCII text goes through the command-line tool under simulated locale encodings (fake file system) and, every fourth case, through the real tool in fresh interpreters under LC_ALL=C.utf8 and LC_ALL=C without coercion/UTF-8 mode, another hash seed and another working directory - all builds byte-identical to the API build.',
+  'Assumes PYTHONHASHSEED and the locale encoding are the per-process inputs reachable from hidc (no clocks, ids or paths in the output).',
   'deterministic simulation with controlled interpreter hash seed / process seam and configuration sweeps on the simulated machine'),
  'C16': ('exploration', '3 C16',
   'Seeded function bodies composed of the shapes the exit analysis reasons about (constant-true loops with/without break, if/else exits, try/undo/stop with exits in body and handler, preempt with the only return, statements after exits, terminal calls), including shapes that must be rejected; when hidc accepts, the program runs for every selector value with the program-counter monitor (no sequential arrival at a function entry, pc never leaves the code), the history must equal the reference interpreter (which executes every source statement) and the reference must never fall off a value-returning function.',
